@@ -72,7 +72,17 @@ func jsonToV(x any) eng.V {
 var structRule = "struct_rule"
 
 // optional: no field is required, so an empty record is a success unless the struct-level rule runs
-func httpSchema(ptr bool, optional ...bool) *eng.Node {
+// httpSchema: the root is a Struct (ptr 0), a Ptr(Struct) (1) or a Ptr(Struct).NotNil() (2)
+func httpSchema(ptr int, optional ...bool) *eng.Node {
+	wrap := func(st *eng.Node) *eng.Node {
+		switch ptr {
+		case 1:
+			return &eng.Node{Kind: "ptr", Elem: st}
+		case 2:
+			return &eng.Node{Kind: "ptr", Elem: st, NotNil: &eng.TOpts{}, NNID: 8}
+		}
+		return st
+	}
 	req := eng.TOpts{}
 	if len(optional) > 0 && optional[0] {
 		st := &eng.Node{Kind: "struct", Fields: []eng.Field{
@@ -84,10 +94,7 @@ func httpSchema(ptr bool, optional ...bool) *eng.Node {
 			{Key: "two", GoName: "Two", Tags: [][2]string{{"form", "w[]"}, {"query", "w[]"}}, S: &eng.Node{Kind: "slice", Elem: &eng.Node{Kind: "prim", PK: "str"}}},
 		}, Extra: []string{"Zextra"},
 			Tests: []eng.TestSpec{{ID: 9, Name: "fn", N: 2, R: 2, Opts: eng.TOpts{Code: &structRule}}}}
-		if ptr {
-			return &eng.Node{Kind: "ptr", Elem: st}
-		}
-		return st
+		return wrap(st)
 	}
 	st := &eng.Node{Kind: "struct", Fields: []eng.Field{
 		{Key: "name", GoName: "Name", Tags: [][2]string{{"json", "j_name"}, {"form", "f_name"}, {"query", "q_name"}}, S: &eng.Node{Kind: "prim", PK: "str", Req: &req, ReqID: 1}},
@@ -99,15 +106,14 @@ func httpSchema(ptr bool, optional ...bool) *eng.Node {
 	}, Extra: []string{"Zextra"},
 		// a struct-level rule that never holds: its issue must be there whenever the struct node runs at all
 		Tests: []eng.TestSpec{{ID: 9, Name: "fn", N: 2, R: 2, Opts: eng.TOpts{Code: &structRule}}}}
-	if ptr {
-		return &eng.Node{Kind: "ptr", Elem: st}
-	}
-	return st
+	return wrap(st)
 }
+
+const d40Text = "D40 zjson hands the empty object {} over as a nil provider: a top-level Ptr(Struct) schema takes it for no record at all (nil pointer, no required issue), and a Struct root files the issues of the empty record under the zog tag / schema key instead of the json tag"
 
 func streamHTTP(seed uint64, n int, driver string) (*Summary, error) {
 	sum := newSummary("http", seed)
-	sum.Rule = "product of 9 methods x 14 Content-Type values (bare, with parameters, with whitespace, unknown, empty) x 21 body classes (valid object, {}, truncated, array, number, null, empty, valid form, malformed form, object followed by text / a bracket / a second object, object followed by white space, forms with a single blank k[] value, objects surrounded by every kind of JSON white space incl. CR, and by bytes that are not JSON white space: BOM, VT, NBSP) x 11 query shapes (incl. the three-byte list parameter name w[]) (none, single, repeated, k[] list, other keys, a single blank / white-space k[] value, blank values) x {Struct, Ptr(Struct)} x {required fields, no required field} with a struct-level rule that never holds and a distinct sentinel per source, under a rotating formatter level (default, execution es/en, i18n es, i18n after a history of installations); exhaustive over the product when n is large, sampled otherwise; non-trivial = every case (each fixes one source choice); distinct = distinct case line"
+	sum.Rule = "product of 9 methods x 14 Content-Type values (bare, with parameters, with whitespace, unknown, empty) x 21 body classes (valid object, {}, truncated, array, number, null, empty, valid form, malformed form, object followed by text / a bracket / a second object, object followed by white space, forms with a single blank k[] value, objects surrounded by every kind of JSON white space incl. CR, and by bytes that are not JSON white space: BOM, VT, NBSP) x 11 query shapes (incl. the three-byte list parameter name w[]) (none, single, repeated, k[] list, other keys, a single blank / white-space k[] value, blank values) x {Struct, Ptr(Struct), Ptr(Struct).NotNil()} x {required fields, no required field} with a struct-level rule that never holds and a distinct sentinel per source, under a rotating formatter level (default, execution es/en, i18n es, i18n after a history of installations); exhaustive over the product when n is large, sampled otherwise; non-trivial = every case (each fixes one source choice); distinct = distinct case line"
 	methods := []string{"GET", "HEAD", "POST", "PUT", "PATCH", "DELETE", "OPTIONS", "get", "CUSTOM"}
 	ctypes := []string{"application/json", "application/json; charset=utf-8", "application/json;charset=utf-8", "application/json ;x=1", "application/x-www-form-urlencoded",
 		"application/x-www-form-urlencoded; charset=UTF-8", "multipart/form-data; boundary=x", "text/plain", "", ";application/json", "Application/JSON", "application/jsonx", "application/json;", "text/plain; a=application/json"}
@@ -117,7 +123,7 @@ func streamHTTP(seed uint64, n int, driver string) (*Summary, error) {
 	queries := []string{"", "q_name=Q&num=5", "q_name=Q&q_name=Q2&one=a&one=b", "q_name=Q&tags%5B%5D=tq1", "zzz=1&f_name=QF&j_name=QJ", "q_name=Q&tags%5B%5D=", "q_name=Q&tags%5B%5D=%20&num=", "q_name=&tags%5B%5D=a&tags%5B%5D=", "q_name=Q&w%5B%5D=", "w%5B%5D=x&%5B%5D=y", "q_name=Q&w%5B%5D=a&w%5B%5D="}
 	type combo struct {
 		m, ct, body, q string
-		ptr            bool
+		ptr            int
 		opt            bool // no field required: an empty record succeeds unless the struct-level rule runs
 	}
 	var combos []combo
@@ -125,7 +131,7 @@ func streamHTTP(seed uint64, n int, driver string) (*Summary, error) {
 		for _, ct := range ctypes {
 			for _, b := range bodies {
 				for _, q := range queries {
-					for _, p := range []bool{false, true} {
+					for _, p := range []int{0, 1, 2} {
 						combos = append(combos, combo{m, ct, b, q, p, false}, combo{m, ct, b, q, p, true})
 					}
 				}
@@ -138,7 +144,7 @@ func streamHTTP(seed uint64, n int, driver string) (*Summary, error) {
 		combos = combos[:n]
 		// always there: the empty object and the empty / null bodies through the JSON route, on both schemas
 		for _, b := range []string{`{}`, ``, `null`, "{\"j_name\":\"J\",\"num\":7} \n\t "} {
-			for _, p := range []bool{false, true} {
+			for _, p := range []int{0, 1, 2} {
 				for _, o := range []bool{false, true} {
 					combos = append(combos, combo{"POST", "application/json", b, "", p, o}, combo{"PUT", "application/json; charset=utf-8", b, "q_name=Q", p, o})
 				}
@@ -251,6 +257,22 @@ func streamHTTP(seed uint64, n int, driver string) (*Summary, error) {
 		}
 		ip := iv.issueKeys(true, "code,path,dtype,msg", nil) + " " + iv.dest.String()
 		mp := mv.issueKeys(true, "code,path,dtype,msg", nil) + " " + mv.dest.String()
+		if ip != mp && len(m.List) > 6 && m.List[6].Tag() == "alt" {
+			// known finding D40: the empty JSON object at a top-level Ptr schema is taken for NO record (the pointer
+			// stays nil, no field is looked at) instead of a record in which every field is absent
+			a := m.List[6]
+			av, err := parseRes(sx.T("res", m.List[1], a.List[1], a.List[2], a.List[3]).String())
+			if err != nil {
+				return nil, err
+			}
+			if ip == av.issueKeys(true, "code,path,dtype,msg", nil)+" "+av.dest.String() {
+				for _, pid := range []string{"C15", "C14"} {
+					sum.Known[pid] = appendUnique(sum.Known[pid], d40Text)
+				}
+				sum.Hist["known_D40_hits"]++
+				continue
+			}
+		}
 		if ip != mp {
 			sum.addMismatch("C15", Mismatch{Case: lines[i], Impl: impls[i], Model: modelLine, What: fmt.Sprintf("model reads source %s; projection impl=%s model=%s", src, ip, mp)})
 			// the record, presented through the front end the model (and the documentation) selects, gives another result (C14)
